@@ -54,7 +54,13 @@ let parse_desc path : file =
       objs := { o_name = chars_of_string name;
                 o_body = BGr (z_of_string nt, z_of_string nc, z_of_string xd, z_of_string yd,
                               List.map z_of_string (fst (take (int_of_string n) vals))) } :: !objs
-    | "V" :: name :: nrec :: nf :: rest ->
+    | "T" :: _owner :: _findex :: name :: nt :: n :: vals ->
+      (* a Vdata / Vgroup attribute is stored as a lone Vdata of class Attr0.0 named like the attribute, with one
+         record of one field VALUES: that is the object hdiff lists and compares *)
+      objs := { o_name = chars_of_string name;
+                o_body = BVd (z_of_int 1, [(chars_of_string "VALUES", (z_of_string nt, z_of_string n))],
+                              List.map z_of_string (fst (take (int_of_string n) vals))) } :: !objs
+    | ("V" | "N") :: name :: nrec :: nf :: rest ->
       let rec fields k l = if k = 0 then ([], l) else match l with
         | fn :: nt :: ord :: r -> let (fs, r') = fields (k - 1) r in ((chars_of_string fn, (z_of_string nt, z_of_string ord)) :: fs, r')
         | _ -> failwith "bad V" in
